@@ -17,7 +17,7 @@ def main(tier: str, seed: int) -> int:
     shards += E.random_shards(PROP, run, JUDGES, profile="stack", count=run.pick(45, 500), cap=run.pick(150, 300), maxlen=5, extra={"start_rules": "all", "profile_overrides": {"stack_weight": 0.45}})
     shards += E.random_shards(PROP, run, JUDGES, profile="trivia", count=run.pick(25, 300), cap=run.pick(150, 300), maxlen=4, extra=extra)
     shards += E.matrix_shards(PROP, run, JUDGES, sample=run.pick(2500, 0), cap=run.pick(150, 400))
-    shards += E.random_shards(PROP, run, JUDGES, profile="full", count=run.pick(20, 250), cap=run.pick(120, 300), maxlen=4, extra={"start_rules": "all", "extra_alpha": " #\u00df\u00e9", "profile_overrides": {"ci_nonascii": True, "push_empty": True, "trivia_refs": True, "trivia_explicit": True, "zero_counts": True, "zero_width_stack_reps": True, "skipuntil_ci": True}})
+    shards += E.random_shards(PROP, run, JUDGES, profile="full", count=run.pick(20, 250), cap=run.pick(120, 300), maxlen=4, extra={"start_rules": "all", "extra_alpha": " #\u00df\u00e9", "profile_overrides": {"more_builtins": True, "ci_nonascii": True, "push_empty": True, "trivia_refs": True, "trivia_explicit": True, "zero_counts": True, "zero_width_stack_reps": True, "skipuntil_ci": True}})
     for j in range(16):
         shards.append({"prop": PROP, "judges": JUDGES, "modes": ["I", "GI", "O", "GO"], "source": "stackscen", "seed": E.seed_int(PROP, run.seed, "sc", j), "count": run.pick(50, 700), "cap": run.pick(200, 500), "maxlen": 5, "sample_at": 10**9})
     import random as _random
